@@ -23,7 +23,7 @@
 //!
 //! Second line kind: `stub <names> <table> <query>` — alias chasing of the stub resolver (CachingClient):
 //!   one upstream, table `<name>,<qtype>=<response>`; output `<class> n=<upstream queries>`.
-use std::collections::{BTreeMap, BTreeSet};
+use std::collections::{BTreeMap, BTreeSet, HashMap};
 use std::net::{IpAddr, Ipv4Addr, Ipv6Addr};
 use std::pin::Pin;
 use std::sync::{Arc, Mutex};
@@ -549,6 +549,9 @@ struct Truth {
     /// zones legitimately delegated to each address (least fixpoint of bailiwick-respecting referrals from the roots)
     delegated: BTreeMap<IpAddr, BTreeSet<usize>>,
     strict: bool,
+    /// memo of `in_some_zone` / `legit_addrs`, cleared whenever `delegated` grows
+    memo_zone: std::cell::RefCell<HashMap<(usize, usize), bool>>,
+    memo_addrs: std::cell::RefCell<HashMap<usize, BTreeSet<IpAddr>>>,
 }
 
 impl Truth {
@@ -575,7 +578,17 @@ impl Truth {
     }
 
     fn in_some_zone(&self, c: &Case, g: usize, owner: usize) -> bool {
-        self.zones_of_group(c, g).iter().any(|z| is_subzone(&c.names[*z], &c.names[owner]))
+        if let Some(v) = self.memo_zone.borrow().get(&(g, owner)) {
+            return *v;
+        }
+        let v = self.zones_of_group(c, g).iter().any(|z| is_subzone(&c.names[*z], &c.names[owner]));
+        self.memo_zone.borrow_mut().insert((g, owner), v);
+        v
+    }
+
+    fn invalidate(&self) {
+        self.memo_zone.borrow_mut().clear();
+        self.memo_addrs.borrow_mut().clear();
     }
 
     /// addresses a name-server name `t` may legitimately be given: address records owned by `t`, or any
@@ -583,6 +596,15 @@ impl Truth {
     /// `strict = false` additionally admits what `append_ips_from_lookup` admits (answers to an address
     /// query for `t` by a server delegated a zone enclosing `t`, whatever the owner of the record).
     fn legit_addrs(&self, c: &Case, t: usize) -> BTreeSet<IpAddr> {
+        if let Some(v) = self.memo_addrs.borrow().get(&t) {
+            return v.clone();
+        }
+        let v = self.legit_addrs_uncached(c, t);
+        self.memo_addrs.borrow_mut().insert(t, v.clone());
+        v
+    }
+
+    fn legit_addrs_uncached(&self, c: &Case, t: usize) -> BTreeSet<IpAddr> {
         let mut s = BTreeSet::new();
         for (g, key, r) in Self::responses(c) {
             let to_t = matches!(key, Some((n, ty)) if c.names[n] == c.names[t] && (ty == 1 || ty == 28));
@@ -604,7 +626,7 @@ impl Truth {
 
     fn compute(c: &Case, strict: bool) -> Truth {
         let root = c.names.iter().position(|n| n.is_root());
-        let mut t = Truth { delegated: BTreeMap::new(), strict };
+        let mut t = Truth { delegated: BTreeMap::new(), strict, memo_zone: Default::default(), memo_addrs: Default::default() };
         let Some(root) = root else { return t };
         for ip in &c.roots {
             t.delegated.entry(*ip).or_default().insert(root);
@@ -644,6 +666,7 @@ impl Truth {
             for (ip, w) in add {
                 t.delegated.entry(ip).or_default().insert(w);
             }
+            t.invalidate();
         }
         t
     }
@@ -885,9 +908,8 @@ fn exec_res(line: &str, t: &[&str], rec: &mut Recorder) {
             }
             if let Some(ip) = r.data.ip_addr() {
                 if denied(&case.deny_ans, &case.allow_ans, &ip) {
-                    // negative outcomes skip the pool's answer filter (NameServerPool::send filters Ok responses only)
-                    let class = if o.class != "ok" { CLASS_NEG_ANS } else { "" };
-                    rec.fail(idx, format!("query {k}: returned address {} which the answer filter denies ({})", ip_tok(&ip), o.class), class);
+                    // (negative outcomes are filtered too since fix a600360: no known class any more)
+                    rec.fail(idx, format!("query {k}: returned address {} which the answer filter denies ({})", ip_tok(&ip), o.class), "");
                 }
             }
         }
@@ -948,7 +970,6 @@ fn exec_res(line: &str, t: &[&str], rec: &mut Recorder) {
     }
 }
 
-const CLASS_NEG_ANS: &str = "C19.NegativeResponseAnswerFilterSkipped";
 const CLASS_NSADDR: &str = "C19.GluelessNsAddressOwnerUnchecked";
 
 /// Narrow class of the "contacted an address nobody legitimately made a name server" failure: the internet
@@ -983,12 +1004,12 @@ pub fn run(o: &Opts, rec: &mut Recorder) {
         }
     }
     let mut r = Rng::new(o.seed);
-    let n = o.n(400, 6000);
+    let n = o.n(600, 20000);
     for i in 0..n {
         let line = gen::case(&mut r, i);
         exec(&line, rec);
     }
-    let n = o.n(100, 2000);
+    let n = o.n(150, 4000);
     for _ in 0..n {
         let line = stub::gen(&mut r);
         exec(&line, rec);
